@@ -4,11 +4,13 @@
 mod alloc;
 mod codec;
 mod drv_reader;
+mod drv_writer;
 mod dynspec;
 mod gen;
 mod j;
 mod reader;
 mod rng;
+mod writer;
 
 #[global_allocator]
 static GLOBAL: alloc::Counting = alloc::Counting;
@@ -25,10 +27,14 @@ fn main() {
     let thorough = arg(&args, "--tier").map(|t| t == "thorough").unwrap_or(false);
     let outp = arg(&args, "--out").unwrap_or_else(|| { eprintln!("--out required"); std::process::exit(2) });
     // panics of the code under test are data, not noise
-    std::panic::set_hook(Box::new(|_| {}));
+    std::panic::set_hook(Box::new(|info| {
+        // ... but a panic of the harness itself must be seen
+        if let Some(l) = info.location() { if !l.file().starts_with("/repo") && !l.file().contains("/rustc/") { eprintln!("HARNESS PANIC: {}", info); } }
+    }));
     let mut out = j::Out::create(&outp);
     match driver {
         "codec" => codec::run(&mut out, seed, thorough),
+        d if d.starts_with("writer:") => drv_writer::run(&mut out, &d[7..], seed, thorough),
         "reader:replay" => drv_reader::replay(&mut out, &arg(&args, "--in").expect("--in FILE")),
         d if d.starts_with("reader:") => drv_reader::run(&mut out, &d[7..], seed, thorough),
         x => { eprintln!("unknown driver {x}"); std::process::exit(2); }
